@@ -137,5 +137,17 @@ theorem step_live {s : State} (hg : Good crc pl blob s) (a : Action) (hl : Live 
     split
     · exact init_live _
     · exact hl
+  | tornReopen n =>
+    simp only [step]
+    split
+    · rename_i hq
+      have hcore : ∀ (u : State), u.inCache = false → Live (openTorrent u) := by
+        intro u hu
+        unfold openTorrent
+        split <;> exact core_live0 _ (by simpa using hu)
+      split
+      · exact hcore s hq.2
+      · exact hcore _ hq.2
+    · exact hl
 
 end KrakenModel.Proof.C03
